@@ -124,6 +124,9 @@ def h_from_residual(engine, st, fr, callee, argv, m):
         return EnumV("Result", 1, {1: list(r.variants.get(1, [UNINIT]))})
     if isinstance(r, EnumV) and r.name == "Option":
         return EnumV("Option", 0, {})
+    if isinstance(r, Opaque) and r.ty == "const" and "Option::<" in r.label and r.label.endswith("::None") and "Option<" in callee.split(" as ")[0]:
+        # `?` on an Option: the residual is the constant None
+        return EnumV("Option", 0, {})
     raise Unsupported("from_residual on %r" % (r,))
 
 
@@ -557,7 +560,7 @@ def closure_fn(engine, cl):
         if f is not None:
             return f
     if isinstance(cl, Opaque) and cl.ty == "fnitem":
-        f = engine.find_fn(cl.label)
+        f = engine.find_fn(cl.label) or engine.find_fn(cl.label.replace("lexpr::", "")) or engine.find_fn(cl.label.replace("serde_lexpr::", ""))
         if f is not None:
             return f
     if isinstance(cl, Opaque) and cl.ty == "const":
